@@ -29,6 +29,10 @@ pub fn gen(rng: &mut Rng, _tier: Tier) -> Scn {
     }
     spec.full_fdt = rng.chance(0.6);
     spec.fdt_carousel = CarouselSpec::DelayMs(*rng.pick(&[100u64, 1000]));
+    if rng.chance(0.04) {
+        // "send each FDT instance once"
+        spec.fdt_carousel = if rng.chance(0.5) { CarouselSpec::DelayMax } else { CarouselSpec::IntervalMax };
+    }
     let n = rng.range(1, 3) as usize;
     let mut objects = Vec::new();
     let mut ops = Vec::new();
@@ -60,6 +64,10 @@ pub fn gen(rng: &mut Rng, _tier: Tier) -> Scn {
         if rng.chance(0.5) {
             let d = *rng.pick(&[0u64, 1, 7, 50, 333]);
             o.carousel = Some(if rng.chance(0.5) { CarouselSpec::DelayMs(d) } else { CarouselSpec::IntervalMs(d) });
+            // (degenerate: a delay that never elapses - the object repeats only when triggered)
+            if rng.chance(0.06) {
+                o.carousel = Some(if rng.chance(0.5) { CarouselSpec::DelayMax } else { CarouselSpec::IntervalMax });
+            }
         }
         o.target = match rng.below(6) {
             0 => Some(TargetSpec::Fast),
@@ -237,6 +245,10 @@ pub fn oracle(scn: &SenderScn, ctx: &Ctx, trace: &SenderTrace) {
                                 format!("toi={} transfer {} starts {} us after transfer {} started, configured interval {} ms", toi, b.n, b.start_us - a.start_us, a.n, d),
                             );
                         }
+                    }
+                    // a delay / interval that never elapses: no new burst without a trigger
+                    CarouselSpec::DelayMax | CarouselSpec::IntervalMax => {
+                        violate(ctx, "C14/carousel-delay-early", "never-elapsing-delay", format!("toi={} transfer {} starts although the configured carousel delay never elapses and the object was not triggered", toi, b.n));
                     }
                 }
                 ctx.borrow_mut().note("carousel-gaps-checked");
